@@ -153,11 +153,13 @@ def run(chk):
         chk.count(1, ('plain', val))
     # ---- signed cookies: honest round trips
     secrets = ['s3cret', 'other-secret', 'k' * 40]
-    values = ['v', 'text with ; and "quotes"', 'é€', {'user': 'root', 'ids': [1, 2, 3]}, ('t', 1), None, 0, 3.5, ['x', {'y': b'z'}], 'a' * 600]
+    values = ['v', 'text with ; and "quotes"', 'é€', {'user': 'root', 'ids': [1, 2, 3]}, ('t', 1), None, 0, 3.5, ['x', {'y': b'z'}], 'a' * 600,
+              # values that compare equal across types, one after the other under one name and secret
+              1, True, 1.0, 0.0, -0.0, False, (1, 2), (1.0, 2), frozenset({1}), frozenset({True})]
     minted = []
     for sec in secrets[:2]:
         for i, v in enumerate(values):
-            name = 'sess%d' % (i % 3)
+            name = 'sess%d' % (i % 3) if i < 10 else 'same'
             raw, st = set_and_capture(app, name, v, secret=sec, via=rng.choice(['response', 'response', 'redirect']))
             if raw is None:
                 continue
